@@ -103,8 +103,14 @@ func (o Int) BinaryOp(tok token.Token, right Object) (Object, error) {
 		case token.AndNot:
 			return o &^ v, nil
 		case token.Shl:
+			if v < 0 {
+				return nil, ErrType.NewError("negative shift count")
+			}
 			return o << v, nil
 		case token.Shr:
+			if v < 0 {
+				return nil, ErrType.NewError("negative shift count")
+			}
 			return o >> v, nil
 		case token.Less:
 			return Bool(o < v), nil
@@ -521,8 +527,14 @@ func (o Char) BinaryOp(tok token.Token, right Object) (Object, error) {
 		case token.AndNot:
 			return o &^ v, nil
 		case token.Shl:
+			if v < 0 {
+				return nil, ErrType.NewError("negative shift count")
+			}
 			return o << v, nil
 		case token.Shr:
+			if v < 0 {
+				return nil, ErrType.NewError("negative shift count")
+			}
 			return o >> v, nil
 		case token.Less:
 			return Bool(o < v), nil
